@@ -386,7 +386,12 @@ def mc_plans(chk, pid):
                 ("pause_resume_running_attempts", sc.resumable(2, 2, 3, 2), [], ["Act_C12_RunningAttemptsKept"],
                  {"max_resume": 1, "expect_violation": "Act_C12_RunningAttemptsKept"})],
         "C31": [("fanout_timeout", sc.fanout(2, 2, 2, 5, 1, timeout=8) if q else sc.fanout(2, 3, 2, 5, 1, timeout=8), ["Inv_C31", "Inv_C04"], [], {"max_cancel": 1}),
-                ("pipeline", sc.pipeline(retry_max=2, delay=3, fail_until=1, timeout=5), ["Inv_C31", "Inv_C04"], [], {"max_cancel": 1})],
+                ("pipeline", sc.pipeline(retry_max=2, delay=3, fail_until=1, timeout=5), ["Inv_C31", "Inv_C04"], [], {"max_cancel": 1}),
+                # cancel_run leaves a context that resumes where it stopped (PauseResume from the cancelled state)
+                ("cancel_resume", sc.fanout(2, 2, None, 0, 0, timeout=8), ["Inv_C31", "Inv_C04", "Inv_C03a"], ["Act_C12_WorkKept"],
+                 {"max_cancel": 1, "max_resume": 1, "replay": True}),
+                ("cancel_resume_waiter", sc.waiter(None, {"k": 1}), ["Inv_C31", "Inv_C04", "Inv_C10"], ["Act_C12_WorkKept"],
+                 {"max_cancel": 1, "max_resume": 1, "ext_menu": [("Resp1", None)], "max_ext": 1, "replay": True})],
         "C02": [("overlap", sc.overlap(1, 1, 2), ["Inv_C02"], [], {"ext_menu": [("A", None), ("D", None)], "max_ext": 1, "replay": True}),
                 ("targeted", sc.targeted(2), ["Inv_C02"], [], {"ext_menu": [("A", "c"), ("D", None)], "max_ext": 1, "replay": True}),
                 ("wait_accept", sc.wait_accept(), ["Inv_C02"], [], {"ext_menu": [("Resp", None)], "max_ext": 2}),
